@@ -19,12 +19,16 @@
     harness only compares order-independent observations.
   * `os.Exit(1)` ("file … not found", "Database corrupt - missing file") and Go panics
     (nil `Slice()`, slice bounds in `load`) are the sticky `DB.failed`.
-  * uint32 / uint64 fields wrap explicitly (`u32`, `add64`, `sub64`).
+  * uint32 / uint64 fields wrap explicitly (`u32`, `add64`, `sub64`, `mul64`): `uint64(24+datlen)` is a uint32 addition,
+    `uint64(perc)*DiskSpaceNeeded` a uint64 multiplication.
   * `DB.eager` is a GHOST field of the proofs: the real store and the oracle always have `eager = false` (then
     `ncOf eager = NO_CACHE` and every definition reads as the Go code). With `eager = true` the three places that
     test NO_CACHE (`freerec`, sync(), `load`) test a bit no 32-bit flag word has instead; Props/C19 relates the real
     run to that "eager ghost" run (same bytes written, every record kept in memory).
-  * Not modelled: the WalkFunction of NewDBExt (always nil here), BR_ABORT, membind wrappers
+  * `load`'s slice `dat[pos:pos+len]` fails in the model when it exceeds the file's LENGTH (Go: its capacity — only
+    more lenient; the path is proved unreachable).
+  * Not modelled: the WalkFunction of NewDBExt (always nil here), BR_ABORT (the constant is here, Browse ignores it;
+    walk results carrying it are outside the theorems, `WalkOK5`), membind wrappers
     (`membind_use_wrapper = false` in the build), `Flush()`, the statistics counters.
 -/
 import GocoinV.Base.Bytes
@@ -34,6 +38,9 @@ abbrev Key := Nat
 
 def NO_BROWSE : Nat := 1
 def NO_CACHE : Nat := 2
+/-- a walk function's request to stop browsing; the model's Browse does NOT implement it (walk results carrying this
+    bit are excluded from the theorems' operation language, `OpOK5`; the harness checks BR_ABORT against a Go map) -/
+def BR_ABORT : Nat := 4
 def YES_CACHE : Nat := 8
 def YES_BROWSE : Nat := 16
 
@@ -43,6 +50,8 @@ def bufSize : Nat := 0x100000
 def u32 (n : Nat) : Nat := n % 2^32
 def add64 (a b : Nat) : Nat := (a + b) % 2^64
 def sub64 (a b : Nat) : Nat := (a + 2^64 - b % 2^64) % 2^64
+/-- `uint64(perc) * DiskSpaceNeeded` (wraps) -/
+def mul64 (a b : Nat) : Nat := (a * b) % 2^64
 
 def hasFlag (fl bit : Nat) : Bool := (fl / bit) % 2 == 1
 
@@ -185,17 +194,17 @@ def memput (db : DB) (k : Key) (r : Rec) : DB :=
   let db := match ilookup k db.index with
     | some prv =>
       if db.volatile then db
-      else { db with extra := add64 db.extra (24 + prv.len), need := sub64 db.need (24 + prv.len) }
+      else { db with extra := add64 db.extra (u32 (24 + prv.len)), need := sub64 db.need (u32 (24 + prv.len)) }
     | none => db
   let db := { db with index := iset k r db.index }
-  let db := if db.volatile then db else { db with need := add64 db.need (24 + r.len) }
+  let db := if db.volatile then db else { db with need := add64 db.need (u32 (24 + r.len)) }
   if r.seq > db.maxSeq then { db with maxSeq := r.seq } else db
 
 def memdel (db : DB) (k : Key) : DB :=
   match ilookup k db.index with
   | some cur =>
     let db := if db.volatile then db
-      else { db with extra := add64 db.extra (12 + cur.len), need := sub64 db.need (12 + cur.len) }
+      else { db with extra := add64 db.extra (u32 (12 + cur.len)), need := sub64 db.need (u32 (12 + cur.len)) }
     { db with index := ierase k db.index }
   | none => db
 
@@ -411,7 +420,7 @@ def syncKey (st : DB × Bytes) (k : Key) : DB × Bytes :=
 def syncFinish (db : DB) (bidx : Bytes) : DB :=
   let db := emit (checkLog db) "qdb.sync:log-written" (.appendLog bidx)
   let db := { db with pending := [] }
-  if db.extra > db.opts.forcedPerc * db.need / 100 then defrag db else db
+  if db.extra > mul64 db.opts.forcedPerc db.need / 100 then defrag db else db
 
 def sync (db : DB) : DB :=
   if db.volatile then db
@@ -506,7 +515,7 @@ def defragOp (db : DB) (force : Bool) : DB × Bool :=
   if db.failed.isSome then (db, false) else
   if db.volatile then (db, false)
   else
-    let doing := force || decide (db.extra > db.opts.defragPerc * db.need / 100)
+    let doing := force || decide (db.extra > mul64 db.opts.defragPerc db.need / 100)
     if doing then (defrag db, true) else (db, false)
 
 def noSyncOp (db : DB) : DB :=
